@@ -20,6 +20,10 @@ for d in sorted(glob.glob(os.path.join(ROOT, "seeded", "*"))):
     m = json.load(open(meta_path))
     if ids and m["id"] not in ids:
         continue
+    if m.get("counted") is False and not ids:
+        # kept for the record only (see its note): outside the property's quantifier
+        print("%-7s skipped: %s" % (m["id"], m.get("note", "")[:160]), flush=True)
+        continue
     props = m["caught_by_quick_checks"] if all_checks else [m["breaks_property"]]
     r = subprocess.run([os.path.join(ROOT, "lib", "mutant.py"), os.path.join(d, "patch.diff")] + props,
                        stdout=subprocess.PIPE, stderr=subprocess.STDOUT, text=True, cwd=ROOT)
